@@ -42,7 +42,8 @@ CFG = {
     "theorems": ["C12_laws_satisfiable", "C12_witness_signs_hash", "C12_xprv128_roundtrip", "C12_xprv128_unfixed_refuted",
                  "C12_key_encodings_roundtrip", "C12_hash_bech32_unfixed_refuted", "C12_hrp_checked", "C12_soft_derivation_commutes",
                  "C12_hardened_from_public_refused", "C12_bip39_root_valid", "C12_emip3_roundtrip", "C12_emip3_empty_plaintext_unfixed_refuted",
-                 "C12_emip3_accepts_only_encrypt_images", "C12_emip3_rejects_modified", "C12_emip3_rejects_modified_tag"],
+                 "C12_emip3_accepts_only_encrypt_images", "C12_emip3_rejects_modified", "C12_emip3_rejects_modified_tag",
+                 "C12_model_satisfies_judge"],
     "allowed_axioms": [],
     "compare": "exact",
     "nontrivial": _nontrivial,
